@@ -2,6 +2,7 @@ From Coq Require Import List NArith Bool.
 From V.gen Require Consts.
 From V.C03 Require Import Model Msg Proofs UviProofs LsProofs WebRtc WebRtcProofs Fallback.
 From V.C03 Require Import MsgRef MsgProofs MsgInv Chan Dir SimD SimL SimSys BytesThm LazyThm.
+From V.C03 Require Import Work Work2 Live.
 Import ListNotations.
 Open Scope N_scope.
 From V.C03 Require Import Properties.
@@ -93,6 +94,18 @@ Check (C03_bytes_run_correct :
   | None =>
       fst (t_res (s_d s)) <> 0 /\ fst (t_res (s_l s)) <> 0
   end).
+Check (C03_bytes_poll_work :
+  forall b s, WfS s ->
+  WfS (poll_side b s) /\ Phi (poll_side b s) <= Phi s /\
+  (Phi (poll_side b s) = Phi s -> poll_side b s = s /\ Blocked b s)).
+Check (C03_bytes_no_deadlock :
+  forall ds ls, Forall wfn ds -> forall s m, Sim ds ls s m ->
+  Blocked false s -> Blocked true s ->
+  t_done (s_d s) = true /\ t_done (s_l s) = true).
+Check (C03_bytes_terminate :
+  forall c, wf_case c -> forall K who,
+  fair K who -> Phi (sys_init c) < N.of_nat K ->
+  t_done (s_d (polls who (sys_init c))) = true /\ t_done (s_l (polls who (sys_init c))) = true).
 Check (C03_lazy_immediate :
   forall d pin pout fuel, wfn d ->
   d_poll (S (S fuel)) (d_init [d] true) pin pout =
